@@ -1,2 +1,494 @@
-(* Proofs/TrieProofs.v *)
+(* Proofs/TrieProofs.v — the association-list map, well-formedness, the
+   characterisation of [members] by walks, Has, and Add refines spec_add. *)
+From Coq Require Import String Sorting.Sorted Permutation.
 From Bio Require Import Base.
+From Bio.Model Require Import Trie.
+From Bio.Spec Require Import TrieSpec.
+
+Local Open Scope N_scope.
+
+(* ---- induction on tries ------------------------------------------------------ *)
+Section TrieInd.
+  Variable P : trie -> Prop.
+  Hypothesis H : forall l, Forall (fun kc => P (snd kc)) l -> P (T l).
+  Fixpoint trie_ind2 (t : trie) : P t :=
+    match t with
+    | T l => H l ((fix go (l : list (byte * trie)) : Forall (fun kc => P (snd kc)) l :=
+                     match l with
+                     | [] => Forall_nil _
+                     | (k, c) :: r => Forall_cons (k, c) (trie_ind2 c) (go r)
+                     end) l)
+    end.
+End TrieInd.
+
+(* ---- small facts --------------------------------------------------------------- *)
+Lemma beqb_eq a b : beqb a b = true <-> a = b.
+Proof.
+  revert b; induction a as [|x a IH]; destruct b as [|y b]; cbn; split; intro E; try congruence; auto.
+  - apply andb_true_iff in E as [E1 E2]. apply N.eqb_eq in E1. apply IH in E2. congruence.
+  - inversion E; subst. rewrite N.eqb_refl. cbn. apply IH. reflexivity.
+Qed.
+
+Lemma beqb_neq a b : beqb a b = false <-> a <> b.
+Proof.
+  split; intro E.
+  - intro F. apply beqb_eq in F. congruence.
+  - destruct (beqb a b) eqn:B; auto. apply beqb_eq in B. contradiction.
+Qed.
+
+Lemma is_prefix_spec p x : is_prefix p x = true <-> prefix p x.
+Proof.
+  revert x; induction p as [|a p IH]; intro x; cbn.
+  - split; auto. intros _. exists x. reflexivity.
+  - destruct x as [|b x].
+    + split; [discriminate|]. intros [s E]. discriminate.
+    + rewrite andb_true_iff, N.eqb_eq, IH. split.
+      * intros [-> [s ->]]. exists s. reflexivity.
+      * intros [s E]. inversion E; subst. split; auto. exists s. reflexivity.
+Qed.
+
+Lemma is_prefix_refl x : is_prefix x x = true.
+Proof. induction x; cbn; auto. rewrite N.eqb_refl. auto. Qed.
+
+Lemma is_prefix_nil_r p : is_prefix p [] = true -> p = [].
+Proof. destruct p; cbn; congruence. Qed.
+
+(* ---- the map --------------------------------------------------------------------- *)
+Section MapFacts.
+  Context {V : Type}.
+  Implicit Types l : list (byte * V).
+
+  Definition sorted l : Prop := StronglySorted N.lt (map fst l).
+
+  Lemma sorted_nil : sorted (@nil (byte * V)).
+  Proof. constructor. Qed.
+
+  Lemma sorted_inv k v l : sorted ((k, v) :: l) ->
+    sorted l /\ forall k' v', In (k', v') l -> k < k'.
+  Proof.
+    unfold sorted; cbn. intro S. apply StronglySorted_inv in S as [S F]. split; auto.
+    intros k' v' I. rewrite Forall_forall in F. apply F. apply in_map_iff. exists (k', v'). auto.
+  Qed.
+
+  Lemma sorted_cons k v l : sorted l -> (forall k' v', In (k', v') l -> k < k') ->
+    sorted ((k, v) :: l).
+  Proof.
+    unfold sorted; cbn. intros S F. constructor; auto.
+    apply Forall_forall. intros x I. apply in_map_iff in I as [[k' v'] [<- I]]. eapply F; eauto.
+  Qed.
+
+  Lemma mget_Some_In k v l : mget k l = Some v -> In (k, v) l.
+  Proof.
+    induction l as [|[k0 v0] r IH]; cbn; [discriminate|].
+    destruct (k0 =? k) eqn:E.
+    - apply N.eqb_eq in E. intro S. inversion S; subst. auto.
+    - auto.
+  Qed.
+
+  Lemma mget_In k v l : sorted l -> In (k, v) l -> mget k l = Some v.
+  Proof.
+    induction l as [|[k0 v0] r IH]; cbn; [tauto|].
+    intros S [E|I].
+    - inversion E; subst. rewrite N.eqb_refl. reflexivity.
+    - apply sorted_inv in S as [S F]. specialize (F _ _ I).
+      destruct (k0 =? k) eqn:E; [apply N.eqb_eq in E; lia|]. auto.
+  Qed.
+
+  Lemma mget_None_notin k l : mget k l = None -> forall v, ~ In (k, v) l.
+  Proof.
+    induction l as [|[k0 v0] r IH]; cbn; [tauto|].
+    destruct (k0 =? k) eqn:E; [discriminate|]. intros N v [F|F].
+    - inversion F; subst. rewrite N.eqb_refl in E. discriminate.
+    - eapply IH; eauto.
+  Qed.
+
+  Lemma mget_mset_same k v l : mget k (mset k v l) = Some v.
+  Proof.
+    induction l as [|[k0 v0] r IH]; cbn.
+    - rewrite N.eqb_refl. reflexivity.
+    - destruct (k <? k0) eqn:L; cbn.
+      + rewrite N.eqb_refl. reflexivity.
+      + destruct (k =? k0) eqn:E; cbn.
+        * rewrite N.eqb_refl. reflexivity.
+        * rewrite N.eqb_sym, E. exact IH.
+  Qed.
+
+  Lemma mget_mset_other k k' v l : k' <> k -> mget k' (mset k v l) = mget k' l.
+  Proof.
+    intro NE. induction l as [|[k0 v0] r IH]; cbn.
+    - destruct (k =? k') eqn:E; auto. apply N.eqb_eq in E. congruence.
+    - destruct (k <? k0) eqn:L; cbn.
+      + destruct (k =? k') eqn:E; auto. apply N.eqb_eq in E. congruence.
+      + destruct (k =? k0) eqn:E; cbn.
+        * apply N.eqb_eq in E. subst k0.
+          destruct (k =? k') eqn:E2; auto. apply N.eqb_eq in E2. congruence.
+        * rewrite IH. reflexivity.
+  Qed.
+
+  Lemma In_mset k v k' v' l : In (k', v') (mset k v l) -> (k' = k /\ v' = v) \/ In (k', v') l.
+  Proof.
+    induction l as [|[k0 v0] r IH]; cbn.
+    - intros [E|[]]. inversion E; auto.
+    - destruct (k <? k0) eqn:L; cbn.
+      + intros [E|I]; auto. inversion E; auto.
+      + destruct (k =? k0) eqn:E; cbn.
+        * intros [E1|I]; auto. inversion E1; auto.
+        * intros [E1|I]; auto. apply IH in I. tauto.
+  Qed.
+
+  Lemma mset_sorted k v l : sorted l -> sorted (mset k v l).
+  Proof.
+    induction l as [|[k0 v0] r IH]; cbn; intro S.
+    - apply sorted_cons; auto. intros ? ? [].
+    - destruct (k <? k0) eqn:L.
+      + apply N.ltb_lt in L. apply sorted_cons; auto.
+        intros k' v' [E|I]; [inversion E; subst; auto|].
+        apply sorted_inv in S as [_ F]. specialize (F _ _ I). lia.
+      + apply N.ltb_ge in L. destruct (k =? k0) eqn:E.
+        * apply N.eqb_eq in E. subst k0. apply sorted_inv in S as [S F]. apply sorted_cons; auto.
+        * apply N.eqb_neq in E. pose proof S as S0. apply sorted_inv in S as [S F].
+          apply sorted_cons; auto. intros k' v' I. apply In_mset in I as [[-> _]|I]; [lia|eauto].
+  Qed.
+
+  Lemma mset_same_id k v l : sorted l -> mget k l = Some v -> mset k v l = l.
+  Proof.
+    induction l as [|[k0 v0] r IH]; cbn; [discriminate|]. intros S G.
+    destruct (k0 =? k) eqn:E.
+    - apply N.eqb_eq in E. subst k0. inversion G; subst. rewrite N.ltb_irrefl, N.eqb_refl. reflexivity.
+    - apply sorted_inv in S as [S F]. pose proof (F _ _ (mget_Some_In _ _ _ G)) as L.
+      apply N.eqb_neq in E.
+      destruct (k <? k0) eqn:L2; [apply N.ltb_lt in L2; lia|].
+      destruct (k =? k0) eqn:E2; [apply N.eqb_eq in E2; congruence|].
+      rewrite IH; auto.
+  Qed.
+
+  Lemma mset_not_nil k v l : mset k v l <> [].
+  Proof.
+    destruct l as [|[k0 v0] r]; cbn; [discriminate|].
+    destruct (k <? k0); [discriminate|]. destruct (k =? k0); discriminate.
+  Qed.
+
+  Lemma In_mdel k k' v' l : In (k', v') (mdel k l) -> In (k', v') l.
+  Proof.
+    induction l as [|[k0 v0] r IH]; cbn; auto.
+    destruct (k0 =? k); cbn; auto. intros [E|I]; auto.
+  Qed.
+
+  Lemma mdel_sorted k l : sorted l -> sorted (mdel k l).
+  Proof.
+    induction l as [|[k0 v0] r IH]; cbn; auto. intro S.
+    apply sorted_inv in S as [S F]. destruct (k0 =? k); auto.
+    apply sorted_cons; auto. intros k' v' I. apply In_mdel in I. eauto.
+  Qed.
+
+  Lemma mget_mdel_same k l : sorted l -> mget k (mdel k l) = None.
+  Proof.
+    induction l as [|[k0 v0] r IH]; cbn; auto. intro S.
+    apply sorted_inv in S as [S F]. destruct (k0 =? k) eqn:E; cbn.
+    - apply N.eqb_eq in E. subst k0. destruct (mget k r) eqn:G; auto.
+      apply mget_Some_In in G. apply F in G. lia.
+    - rewrite E. auto.
+  Qed.
+
+  Lemma mget_mdel_other k k' l : k' <> k -> mget k' (mdel k l) = mget k' l.
+  Proof.
+    intro NE. induction l as [|[k0 v0] r IH]; cbn; auto.
+    destruct (k0 =? k) eqn:E; cbn.
+    - apply N.eqb_eq in E. subst k0. destruct (k =? k') eqn:E2; auto.
+      apply N.eqb_eq in E2. congruence.
+    - rewrite IH. reflexivity.
+  Qed.
+
+  Lemma mdel_nil_single k v l : mget k l = Some v -> mdel k l = [] -> l = [(k, v)].
+  Proof.
+    destruct l as [|[k0 v0] r]; cbn; [discriminate|].
+    destruct (k0 =? k) eqn:E; [|discriminate].
+    apply N.eqb_eq in E. intros S ->. inversion S; subst. reflexivity.
+  Qed.
+End MapFacts.
+
+(* ---- well-formedness ---------------------------------------------------------------- *)
+Lemma wf_empty : wf empty.
+Proof. constructor; [constructor | intros ? ? []]. Qed.
+
+Lemma wf_inv l : wf (T l) -> sorted l /\ (forall k c, In (k, c) l -> wf c).
+Proof. intro W. inversion W; subst. split; auto. Qed.
+
+Lemma wf_child l k c : wf (T l) -> mget k l = Some c -> wf c.
+Proof. intros W G. apply wf_inv in W as [_ W]. eapply W. eapply mget_Some_In; eauto. Qed.
+
+Lemma wf_mset l k c : wf (T l) -> wf c -> wf (T (mset k c l)).
+Proof.
+  intros W Wc. apply wf_inv in W as [S W]. constructor.
+  - apply mset_sorted; auto.
+  - intros k' c' I. apply In_mset in I as [[_ ->]|I]; eauto.
+Qed.
+
+Lemma wf_mdel l k : wf (T l) -> wf (T (mdel k l)).
+Proof.
+  intros W. apply wf_inv in W as [S W]. constructor.
+  - apply mdel_sorted; auto.
+  - intros k' c' I. apply In_mdel in I. eauto.
+Qed.
+
+(* ---- walks ---------------------------------------------------------------------------- *)
+(* the node reached from t along x *)
+Fixpoint walk (x : bytes) (t : trie) : option trie :=
+  match x with
+  | [] => Some t
+  | k :: x' => match mget k (children t) with None => None | Some c => walk x' c end
+  end.
+
+Lemma has_walk x t : has x t = match walk x t with Some _ => true | None => false end.
+Proof.
+  revert t; induction x as [|k x IH]; intro t; cbn; auto.
+  destruct (mget k (children t)); auto.
+Qed.
+
+Lemma walk_leaf_cons k x : walk (k :: x) (T []) = None.
+Proof. reflexivity. Qed.
+
+Lemma walk_app x s t c : walk (x ++ s) t = Some c -> exists d, walk x t = Some d.
+Proof.
+  revert t; induction x as [|k x IH]; intro t; cbn.
+  - eauto.
+  - destruct (mget k (children t)); [apply IH | discriminate].
+Qed.
+
+(* ---- members = walks to a childless node ------------------------------------------------ *)
+Definition child_members (k : byte) (c : trie) : list bytes :=
+  match c with T [] => [[k]] | _ => map (cons k) (members c) end.
+
+Lemma members_unfold l : members (T l) = flat_map (fun kc => child_members (fst kc) (snd kc)) l.
+Proof.
+  cbn [members]. induction l as [|[k c] r IH]; cbn [flat_map]; auto.
+  f_equal. exact IH.
+Qed.
+
+Lemma in_members_T x l :
+  In x (members (T l)) <-> exists k c, In (k, c) l /\ In x (child_members k c).
+Proof.
+  rewrite members_unfold, in_flat_map. split.
+  - intros [[k c] [I J]]. exists k, c. auto.
+  - intros [k [c [I J]]]. exists (k, c). auto.
+Qed.
+
+Lemma in_child_members x k c :
+  In x (child_members k c) <->
+  exists x', x = k :: x' /\ ((c = T [] /\ x' = []) \/ (c <> T [] /\ In x' (members c))).
+Proof.
+  unfold child_members. destruct c as [[|kc r]].
+  - cbn. split.
+    + intros [<-|[]]. exists []. auto.
+    + intros [x' [-> [[_ ->]|[N _]]]]; [auto | congruence].
+  - rewrite in_map_iff. split.
+    + intros [x' [<- I]]. exists x'. split; auto. right. split; auto. discriminate.
+    + intros [x' [-> [[E _]|[_ I]]]]; [discriminate|]. exists x'. auto.
+Qed.
+
+Lemma members_nonnil t : ~ In [] (members t).
+Proof.
+  destruct t as [l]. rewrite in_members_T. intros [k [c [_ I]]].
+  apply in_child_members in I as [x' [E _]]. discriminate.
+Qed.
+
+Theorem members_iff : forall x t, wf t ->
+  (In x (members t) <-> x <> [] /\ walk x t = Some (T [])).
+Proof.
+  induction x as [|k x IH]; intros [l] W.
+  - split; [intro I; exfalso; eapply members_nonnil; eauto | intros [N _]; congruence].
+  - rewrite in_members_T. cbn [walk children]. split.
+    + intros [k' [c [I J]]]. apply in_child_members in J as [x' [E J]]. inversion E; subst k' x'.
+      split; [discriminate|]. apply wf_inv in W as [S W].
+      rewrite (mget_In _ _ _ S I). destruct J as [[-> ->]|[N J]]; [reflexivity|].
+      apply IH in J; [tauto | eauto].
+    + intros [_ Wk]. destruct (mget k l) as [c|] eqn:G; [|discriminate].
+      exists k, c. split; [eapply mget_Some_In; eauto|].
+      apply in_child_members. exists x. split; auto.
+      destruct x as [|k2 x2].
+      * cbn in Wk. left. inversion Wk. split; reflexivity.
+      * right. split.
+        -- intros ->. rewrite walk_leaf_cons in Wk. discriminate.
+        -- apply IH; [eapply wf_child; eauto|]. split; [discriminate | auto].
+Qed.
+
+(* a node with children has a member below it *)
+Lemma ex_member : forall t, t <> T [] -> exists m, In m (members t).
+Proof.
+  induction t as [l IH] using trie_ind2. intro N.
+  destruct l as [|[k c] r]; [congruence|].
+  apply Forall_inv in IH. cbn in IH.
+  destruct c as [[|kc rc]].
+  - exists [k]. apply in_members_T. exists k, (T []). split; [left; auto|]. cbn. auto.
+  - destruct IH as [m I]; [discriminate|].
+    exists (k :: m). apply in_members_T. exists k, (T (kc :: rc)). split; [left; auto|].
+    apply in_child_members. exists m. split; auto. right. split; auto. discriminate.
+Qed.
+
+(* ---- Has ------------------------------------------------------------------------------- *)
+Lemma walk_member : forall x t c, walk x t = Some c -> x <> [] ->
+  exists m, In m (members t) /\ prefix x m.
+Proof.
+  induction x as [|k x IH]; intros [l] c Wk N; [congruence|].
+  cbn [walk children] in Wk. destruct (mget k l) as [d|] eqn:G; [|discriminate].
+  apply mget_Some_In in G.
+  destruct x as [|k2 x2].
+  - destruct d as [[|kd rd]].
+    + exists [k]. split; [|exists []; reflexivity].
+      apply in_members_T. exists k, (T []). split; auto. cbn. auto.
+    + destruct (ex_member (T (kd :: rd))) as [m I]; [discriminate|].
+      exists (k :: m). split; [|exists m; reflexivity].
+      apply in_members_T. exists k, (T (kd :: rd)). split; auto.
+      apply in_child_members. exists m. split; auto. right. split; auto. discriminate.
+  - destruct (IH d c Wk) as [m [I [s E]]]; [discriminate|].
+    exists (k :: m). split.
+    + apply in_members_T. exists k, d. split; auto.
+      apply in_child_members. exists m. split; auto. right. split; auto.
+      intros ->. rewrite walk_leaf_cons in Wk. discriminate.
+    + exists s. rewrite E. reflexivity.
+Qed.
+
+Theorem has_spec : forall t x, wf t ->
+  (has x t = true <-> x = [] \/ exists m, In m (members t) /\ prefix x m).
+Proof.
+  intros t x W. rewrite has_walk. split.
+  - destruct (walk x t) as [c|] eqn:Wk; [|discriminate]. intros _.
+    destruct x as [|k x]; [left; reflexivity|]. right.
+    eapply walk_member; eauto. discriminate.
+  - intros [->|[m [I [s E]]]]; [reflexivity|].
+    apply members_iff in I as [_ Wm]; auto. subst m.
+    apply walk_app in Wm as [d ->]. reflexivity.
+Qed.
+
+Lemma has_existsb t x : wf t -> x <> [] ->
+  has x t = existsb (is_prefix x) (members t).
+Proof.
+  intros W N. apply eq_true_iff_eq. rewrite has_spec, existsb_exists; auto. split.
+  - intros [E|[m [I P]]]; [congruence|]. exists m. split; auto. apply is_prefix_spec. auto.
+  - intros [m [I P]]. right. exists m. split; auto. apply is_prefix_spec. auto.
+Qed.
+
+Theorem has_spec_has t x : wf t -> has x t = spec_has (members t) x.
+Proof.
+  intro W. destruct x as [|k x]; [reflexivity|].
+  unfold spec_has. apply has_existsb; auto. discriminate.
+Qed.
+
+(* ---- Add --------------------------------------------------------------------------------- *)
+Lemma wf_add : forall b t, wf t -> wf (add b t).
+Proof.
+  induction b as [|k b IH]; intros [l] W; cbn [add]; auto.
+  apply wf_mset; auto. apply IH.
+  destruct (mget k l) eqn:G; [eapply wf_child; eauto | apply wf_empty].
+Qed.
+
+(* adding something the trie already has changes nothing, structurally *)
+Lemma add_has_id : forall b t, wf t -> has b t = true -> add b t = t.
+Proof.
+  induction b as [|k b IH]; intros [l] W Hb; cbn [add]; auto.
+  cbn [has children] in Hb. destruct (mget k l) as [c|] eqn:G; [|discriminate].
+  rewrite IH; auto; [|eapply wf_child; eauto].
+  rewrite mset_same_id; auto. apply wf_inv in W. tauto.
+Qed.
+
+Lemma add_cons_not_leaf k b t : add (k :: b) t <> T [].
+Proof.
+  destruct t as [l]. cbn [add]. intro E. inversion E as [E1].
+  eapply mset_not_nil; eauto.
+Qed.
+
+Lemma walk_add_fresh : forall b x, walk x (add b (T [])) = Some (T []) <-> x = b.
+Proof.
+  induction b as [|k b IH]; intro x.
+  - cbn [add]. destruct x; cbn; split; congruence.
+  - cbn [add mget mset]. destruct x as [|k' x]; cbn [walk children mget].
+    + split; [|discriminate]. intro E. inversion E.
+    + destruct (k =? k') eqn:E.
+      * apply N.eqb_eq in E. subst k'. unfold empty. rewrite IH. split; congruence.
+      * apply N.eqb_neq in E. split; [discriminate | congruence].
+Qed.
+
+(* adding a sequence the trie does not have: the leaves afterwards are b and the
+   old leaves that are not prefixes of b *)
+Lemma add_leaves : forall b t x, wf t -> has b t = false ->
+  (x <> [] /\ walk x (add b t) = Some (T []) <->
+   x = b \/ (x <> [] /\ walk x t = Some (T []) /\ is_prefix x b = false)).
+Proof.
+  induction b as [|k b IH]; intros [l] x W Hb; [discriminate|].
+  cbn [has children] in Hb. cbn [add].
+  destruct x as [|k' x].
+  - split; [tauto|]. intros [E|[N _]]; congruence.
+  - cbn [walk children is_prefix].
+    destruct (N.eq_dec k' k) as [->|NE].
+    + rewrite mget_mset_same, N.eqb_refl. cbn [andb].
+      destruct (mget k l) as [c|] eqn:G.
+      * (* the path goes on below an existing child *)
+        assert (Wc : wf c) by (eapply wf_child; eauto).
+        destruct x as [|k2 x2].
+        -- cbn [walk]. split.
+           ++ intros [_ E]. inversion E as [E1]. destruct b as [|kb b'].
+              ** cbn in Hb. discriminate.
+              ** exfalso. eapply add_cons_not_leaf; eauto.
+           ++ intros [E|[_ [_ F]]]; [|cbn in F; discriminate].
+              inversion E; subst b. cbn in Hb. discriminate.
+        -- specialize (IH c (k2 :: x2) Wc Hb). split.
+           ++ intros [_ Wk]. destruct IH as [IH _].
+              destruct IH as [E|[_ [A B]]]; [split; [discriminate|auto]| |].
+              ** left. congruence.
+              ** right. split; [discriminate|]. auto.
+           ++ intros [E|[_ [A B]]]; (split; [discriminate|]); apply IH.
+              ** left. congruence.
+              ** right. split; [discriminate|]. auto.
+      * (* a fresh branch *)
+        unfold empty. rewrite walk_add_fresh. split.
+        -- intros [_ ->]. auto.
+        -- intros [E|[_ [F _]]]; [split; [discriminate | congruence] | discriminate].
+    + rewrite mget_mset_other; auto.
+      assert (E : (k' =? k) = false) by (apply N.eqb_neq; auto). rewrite E. cbn [andb].
+      split.
+      * intros [N Wk]. right. auto.
+      * intros [F|[N [Wk _]]]; [congruence | auto].
+Qed.
+
+(* ---- set equivalence and the reference operations ------------------------------------------ *)
+Definition seteq (A B : list bytes) : Prop := forall x, In x A <-> In x B.
+
+Lemma existsb_seteq f A B : seteq A B -> existsb f A = existsb f B.
+Proof.
+  intro S. apply eq_true_iff_eq. rewrite !existsb_exists.
+  split; intros [x [I F]]; exists x; split; auto; apply S; auto.
+Qed.
+
+Lemma spec_add_seteq b A B : seteq A B -> seteq (spec_add b A) (spec_add b B).
+Proof.
+  intro S. unfold spec_add. destruct b as [|k b]; auto.
+  rewrite (existsb_seteq _ A B S). destruct (existsb _ B); auto.
+  intro x. cbn [In]. rewrite !filter_In, (S x). tauto.
+Qed.
+
+Lemma spec_delete_seteq b A B : seteq A B ->
+  seteq (fst (spec_delete b A)) (fst (spec_delete b B)) /\
+  snd (spec_delete b A) = snd (spec_delete b B).
+Proof.
+  intro S. unfold spec_delete. destruct b as [|k b]; cbn [fst snd]; auto.
+  split; [|apply existsb_seteq; auto].
+  intro x. rewrite !filter_In, (S x). tauto.
+Qed.
+
+Theorem add_refines b t : wf t -> seteq (members (add b t)) (spec_add b (members t)).
+Proof.
+  intro W. destruct b as [|k b]; [cbn; intro; tauto|].
+  unfold spec_add. rewrite <- has_existsb; auto; [|discriminate].
+  destruct (has (k :: b) t) eqn:Hb.
+  - rewrite add_has_id; auto. intro; tauto.
+  - intro x. rewrite members_iff; [|apply wf_add; auto].
+    rewrite add_leaves; auto. cbn [In]. rewrite filter_In, members_iff; auto.
+    split.
+    + intros [->|[N [Wk P]]]; auto. right. split; auto.
+      unfold proper_prefix. rewrite P. reflexivity.
+    + intros [<-|[[N Wk] P]]; auto. right. split; auto. split; auto.
+      unfold proper_prefix in P. destruct (is_prefix x (k :: b)) eqn:Q; auto.
+      cbn [andb] in P. apply negb_true_iff, negb_false_iff, beqb_eq in P. subst x.
+      (* then b itself is a leaf walk, so the trie has b *)
+      rewrite has_walk, Wk in Hb. discriminate.
+Qed.
